@@ -285,3 +285,40 @@ func (c *chunkConn) Read(b []byte) (int, error) {
 	c.data = c.data[n:]
 	return n, nil
 }
+
+// opFzLoop: the real pdkg.Loop with a session that times out (the peer stays silent), kept running past
+// the once-a-minute expiry sweep (8d5de85), then fed late and malformed messages of that session.
+// Oracle: no panic (a second close of a reply channel would be one), and Loop still takes messages.
+func opFzLoop() (string, string) {
+	setup()
+	me, peer := []byte("me-node-id-000000001"), []byte("peer-node-id-0000002")
+	p := doubles.NewP2P(me, 0)
+	d := dkg.NewPDKG(p, suite)
+	go d.Loop()
+	ctx, cancel := context.WithTimeout(context.Background(), 500*time.Millisecond)
+	defer cancel()
+	outc, errc, err := d.Grouping(ctx, "a1", [][]byte{me, peer})
+	if err != nil {
+		panic("harness: Grouping: " + err.Error())
+	}
+	go func() {
+		for range outc {
+		}
+	}()
+	go func() {
+		for range errc {
+		}
+	}()
+	time.Sleep(63 * time.Second) // at least one sweep after the session context ended
+	msgs := []proto.Message{
+		&dkg.PublicKey{SessionId: "a1", Index: 1}, &dkg.Deal{SessionId: "a1", Index: 1},
+		&dkg.Responses{SessionId: "a1", Response: []*dkg.Response{{Index: 1}, {Index: 0, Response: &vss.Response{Index: 1}}}},
+		&dkg.PublicKey{SessionId: "", Index: 4294967295},
+	}
+	for _, m := range msgs {
+		if !p.DeliverTimeout(peer, m, stepWait) {
+			return "nopanic", "not-serving-fzloop: Loop does not take messages after the expiry sweep"
+		}
+	}
+	return "nopanic", ""
+}
